@@ -97,8 +97,8 @@ def pipelined_reject_with_request_between(inp):
     import threading
     from .sftp_loop import Loop
     bad = []
-    for reject in ((), (2,)):
-        loop = Loop(reject_writes=reject)
+    for reject, code in (((), 4), ((2,), 4), ((2,), 1), ((1,), 3)):
+        loop = Loop(reject_writes=reject, reject_code=code)
         res = {}
         try:
             def run():
@@ -118,7 +118,7 @@ def pipelined_reject_with_request_between(inp):
             if th.is_alive():
                 bad.append({"rejected_writes": list(reject), "why": "close() never returned"})
             elif reject and res.get("outcome") != "raised":
-                bad.append({"rejected_writes": list(reject), "why": "every call returned normally, the refusal was never raised"})
+                bad.append({"rejected_writes": list(reject), "status_code": code, "why": "every call returned normally, the refusal was never raised"})
             elif not reject and res.get("outcome") != "returned":
                 bad.append({"rejected_writes": [], "why": "raised although the server accepted every write"})
         finally:
